@@ -743,7 +743,7 @@ def _collect_frames(lexicon: _AnyLexicon) -> list[lmf.SyntacticBehaviour]:
     for frame in lexicon.get('frames', []):
         synbhr: lmf.SyntacticBehaviour = {
             'subcategorizationFrame': frame['subcategorizationFrame'],
-            'senses': frame.get('senses', []),
+            'senses': list(frame.get('senses', [])),
         }
         if frame.get('id'):  # the id is optional
             synbhr['id'] = frame['id']
